@@ -8,7 +8,7 @@ From Cao Require Import Stacks Vm VmProofs C04VmProofs C15Link.
 From Cao Require RefSem TableProofs.
 From Cao Require Import C01SimKeep C01SimVm C01SimVmLocals C01SimDefs C01SimComp C01SimRef C01SimF1 C01SimDefs2 C01SimComp2 C01SimF2.
 From Cao Require Import C01SimDefs3 C01SimF3 C01SimDefs4 C01SimF4 C01SimDefs5 C01SimRef5 C01SimComp5 C01SimF5.
-From Cao Require Import C01SimDefs6 C01SimF6 C01SimDefs7 C01SimF7 C01SimDefs8.
+From Cao Require Import C01SimDefs6 C01SimF6 C01SimDefs7 C01SimF7 C01SimDefs8 C01SimRef8 C01SimComp8.
 Import ListNotations.
 Local Open Scope N_scope.
 
@@ -715,3 +715,91 @@ Lemma sim8 n : stmt_sim8 n.
 Proof. apply sim_rep8. Qed.
 
 End Run8.
+
+(* ------------------------------------------------------------------ the theorem *)
+Theorem compile_correct_f8 F bld M B fuel host o :
+  in_f8 M = true ->
+  depth_ok8 (main_cards M) = true ->
+  compile M default_options = COk B ->
+  N.of_nat (length (Compiler.p_ids B)) < two32 ->
+  N.of_nat (length (Compiler.p_bytecode B)) < 2147483648 ->
+  RefSem.eval_program fuel M host = RefSem.PObs o ->
+  exists N0 : nat, forall budget : nat, (N0 <= budget)%nat ->
+    let r := Vm.run F bld budget (C15Link.to_vm B) fresh_state in
+    vm_kind (fst r) = Some (RefSem.ob_kind o) /\
+    forall n, no_collision (gnames_seq8 [] (main_cards M)) n ->
+      option_map vm_tree (read_var_by_name (C15Link.to_vm B) (snd r) n) = RefSem.assoc n (RefSem.ob_globals o).
+Proof.
+  intros HM Hdepth HB Hlen Hsmall Href.
+  destruct (compile_f8_shape M B HM HB Hlen) as (rest & Hbc & Hnames & Tinj & Tlt & Hinj).
+  destruct (eval_program_f8 fuel M host o HM Href) as (nf & Rf & g & Hrun & Hkind & HsR & Hgs & Hglob).
+  pose proof (in_f8_cards M HM) as Hcards.
+  set (T := Compiler.p_ids B) in *. set (cards := main_cards M) in *. set (names := gnames_seq8 [] cards) in *.
+  set (P := C15Link.to_vm B).
+  set (cm := code_seq8 T [] 0 cards) in *.
+  set (npop := length (names_seq8 [] cards)) in *.
+  assert (Hcode : p_code P = encode (cm ++ repeat IPop npop ++ IExit :: rest)).
+  { change (p_code P) with (Compiler.p_bytecode B). rewrite Hbc. unfold code_all8. fold cm npop.
+    rewrite <- !app_assoc. reflexivity. }
+  assert (Psmall : code_len P < 2147483648) by exact Hsmall.
+  assert (Hseg : seg P [] (code_seq8 T (lnames []) (bytes []) cards)) by (eexists; exact Hcode).
+  assert (Hnm : forall x, In x (gnames_seq8 (lnames []) cards) -> In x names /\ nm_find (handle_of_bytes x) T <> None)
+    by (intros x Hx; split; [exact Hx | apply Hnames, Hx]).
+  assert (Hrel0 : grel T names [] []).
+  { intros x _. unfold gread. cbn [RefSem.assoc option_map].
+    destruct (nm_find (handle_of_bytes x) T) as [id|]; [|reflexivity]. destruct (N.to_nat id); reflexivity. }
+  assert (Hread : forall s' gv', st_globals s' = gv' -> grel T names g gv' ->
+            forall x, no_collision names x ->
+            option_map vm_tree (read_var_by_name P (set_calls s' []) x) = RefSem.assoc x (RefSem.ob_globals o)).
+  { intros s' gv' Hg' Hrel x Hx. rewrite Hglob, assoc_map_tree, (Hrel x Hx). f_equal.
+    unfold read_var_by_name, gread. cbn [st_globals set_calls]. rewrite Hg', assoc_nm_find. reflexivity. }
+  assert (Hdep : (S (length (@nil (str * RefSem.value)) + seq_depth8 cards) < cap)%nat).
+  { unfold depth_ok8 in Hdepth. apply Nat.ltb_lt in Hdepth. exact Hdepth. }
+  pose proof (seq_sim8 F bld P T names Psmall nf (sim8 F bld P T names Tlt Tinj Hinj Psmall nf)
+                true cards [] [] _ Rf g Hcards Hrun [] [] Hseg Hnm Hdep Hrel0 (Forall_nil _)) as [_ Hsim].
+  change (bytes []) with 0 in Hsim. change (lnames []) with (@nil str) in *. fold cm in Hsim.
+  change (lstack []) with (@nil value) in Hsim.
+  destruct (RefSem.ob_kind o) as [|kk] eqn:Ek.
+  - destruct Hsim as (k & gv' & Hsteps & Hrel).
+    pose proof (runs8_names nf true cards [] [] Rf g Hcards Hrun) as Hln. change (lnames []) with (@nil str) in Hln.
+    assert (Hnp : length (lstack Rf) = npop) by (rewrite lstack_length, <- (lnames_length Rf), Hln; reflexivity).
+    assert (Spop : seg P cm (repeat IPop (length (lstack Rf)))) by (rewrite Hnp; eexists; exact Hcode).
+    pose proof (pops_steps F bld P (lstack Rf) cm gv' Spop) as Hpops. rewrite Hnp in Hpops.
+    pose proof (steps_trans Hsteps Hpops) as Hall.
+    exists (k + npop + 2)%nat. intros budget Hbud r.
+    set (re := run_at F bld P false (N.of_nat budget) 129).
+    set (s2 := set_rem (set_calls fresh_state calls0) (N.of_nat budget)).
+    assert (Hr : r = finish P (loop F bld P re budget 0 s2)).
+    { subst r. unfold run, run_gen.
+      change (push_frame fresh_state (mkFrame 0 0 0 None)) with (Some (set_calls fresh_state calls0)).
+      change max_depth with (S 129). cbv beta iota zeta. rewrite run_at_S. cbn [st_rem set_rem]. rewrite Nat2N.id. reflexivity. }
+    clearbody r. subst r.
+    pose proof (St_entry (N.of_nat budget)) as HS2. fold s2 in HS2.
+    destruct (loop_steps re Hall (budget - (k + npop)) HS2) as (s' & HS' & El); [cbn [fst snd]; lia|].
+    cbn [fst snd] in HS', El. replace (k + npop + (budget - (k + npop)))%nat with budget in El by lia.
+    assert (Hex : code_at P (bytes (cm ++ repeat IPop npop)) IExit).
+    { eapply code_at_encode. rewrite Hcode, <- app_assoc. reflexivity. }
+    replace (budget - (k + npop))%nat with (S (budget - (k + npop) - 1)) in El by lia.
+    destruct (loop_exit F bld re (budget - (k + npop) - 1) HS' Hex) as (s'' & Eex & _ & Hg''); [lia|].
+    rewrite Eex in El.
+    rewrite El. cbn [finish outcome_of fst snd vm_kind]. split; [reflexivity|].
+    eapply Hread; eauto.
+  - destruct Hkind as [Hk|Hk]; [discriminate|]. injection Hk as ->.
+    destruct Hsim as (k & c1 & nm & Hsteps & Herr & Hrel).
+    exists (k + 2)%nat. intros budget Hbud r.
+    set (re := run_at F bld P false (N.of_nat budget) 129).
+    set (s2 := set_rem (set_calls fresh_state calls0) (N.of_nat budget)).
+    assert (Hr : r = finish P (loop F bld P re budget 0 s2)).
+    { subst r. unfold run, run_gen.
+      change (push_frame fresh_state (mkFrame 0 0 0 None)) with (Some (set_calls fresh_state calls0)).
+      change max_depth with (S 129). cbv beta iota zeta. rewrite run_at_S. cbn [st_rem set_rem]. rewrite Nat2N.id. reflexivity. }
+    clearbody r. subst r.
+    pose proof (St_entry (N.of_nat budget)) as HS2. fold s2 in HS2.
+    destruct (loop_steps re Hsteps (budget - k) HS2) as (s' & HS' & El); [cbn [fst snd]; lia|].
+    cbn [fst snd] in El. replace (k + (budget - k))%nat with budget in El by lia.
+    replace (budget - k)%nat with (S (budget - k - 1)) in El by lia.
+    destruct (@loop_err F bld P _ _ _ _ _ re (budget - k - 1) c1 _ s' _ Herr HS') as (s'' & Eerr & Hg''); [lia|].
+    rewrite Eerr in El.
+    rewrite El. cbn [finish outcome_of fst snd vm_kind kind_of_err]. split; [reflexivity|].
+    eapply Hread; eauto.
+Qed.
